@@ -6,6 +6,7 @@ import RbV.Model.Sus
 import RbV.Model.Transform
 import RbV.Model.SampledSA
 import RbV.Model.LFMulti
+import RbV.Model.PosTypes
 /-!
 # C03 — suffix array = sorted permutation of all suffixes; LCP; shortest unique substrings
 
@@ -191,5 +192,27 @@ theorem sampled_get_exact_all (t sa : List Nat) (s k m : Nat) (hc : checkSA t sa
     Sampled.sampledGet (bwtRef t sa) sa s (sentinelOf t) (OccM.lessModel (bwtRef t sa) m)
       (fun r c => OccM.occGet (OccM.occNewLoop (bwtRef t sa) k c) (bwtRef t sa) k r c) i = some (sa.getD i 0) :=
   LFMulti.sampled_get_correct_multi t sa hc hmin s k hs hk m hm i hi
+
+
+/-- **SA-IS, proved fragment** (`…_partial`).  Full statement that is NOT proved here (SA-IS is covered by the
+sound-and-complete acceptance function `checkSA` on every run instead of by a model):
+
+    `saisModel ks = the unique sa with SuffixSorted ks sa`   for every dense integer text `ks` ending in a unique minimum,
+
+where `saisModel` mirrors `Sais::construct` (L/S typing, LMS naming, recursion on the reduced text, induced sorting).
+Proved: the first mechanism, `PosTypes::new` — in a text whose last symbol occurs nowhere else, a position is typed
+S exactly when its suffix is smaller than the next suffix (and the last position is S).  Together with
+`transform_sorted_isSA` (the integer text handed to SA-IS has the right order) this frames SA-IS from both sides. -/
+theorem sais_postypes_partial (ks : List Nat)
+    (hu : ∀ i, i + 1 < ks.length → ks.getD i 0 ≠ ks.getD (ks.length - 1) 0) (p : Nat) (hp : p < ks.length) :
+    (PosTypes.posTypes ks)[p]? =
+      some (decide (lexLt (ks.drop p) (ks.drop (p + 1))) || decide (p + 1 = ks.length)) :=
+  PosTypes.posTypes_spec ks hu p hp
+
+-- the LMS positions of the text pinned in the repo's `test_pos_types`
+example :
+    let ty := PosTypes.posTypes [71, 67, 67, 84, 84, 65, 65, 67, 65, 84, 84, 65, 84, 84, 65, 67, 71, 67, 67, 84, 65, 36]
+    (List.range 22).filter (fun p => p ≠ 0 && ty.getD p false && !ty.getD (p - 1) true) = [1, 5, 8, 11, 14, 17, 21] := by
+  decide
 
 end RbV.Thm.C03
